@@ -1,0 +1,39 @@
+//go:build verif
+
+// Contracts for Msg.Truncate (msg_truncate.go, defaults.go popEdns0).  Comment-only file.
+
+package dns
+
+// popEdns0 removes at most one record (the OPT it returns) from the additional section, in place
+//@ func (*Msg).popEdns0 [C09]
+//@   opt no-safety
+//@   requires dns != nil
+//@   ensures none: ret0 == nil ==> len(dns.Extra) == old(len(dns.Extra))
+//@   ensures one:  ret0 != nil ==> len(dns.Extra) == old(len(dns.Extra)) - 1
+//@   loop 1 invariant len(dns.Extra) == old(len(dns.Extra)) && i < len(dns.Extra)
+//@   modifies H.Msg.Extra.ref H.Msg.Extra.off H.Msg.Extra.len H.Msg.Extra.cap A.RR.tag A.RR.val
+
+// truncateLoop walks one section: it keeps a prefix, never overshoots the budget, and whenever it drops a
+// record it reports the budget as exhausted (so no record of a later section is kept)
+//@ func truncateLoop [C09]
+//@   opt no-safety
+//@   requires l < size
+//@   ensures cnt:  0 <= ret1 && ret1 <= len(rrs)
+//@   ensures fit:  ret0 <= size
+//@   ensures stop: ret1 < len(rrs) ==> ret0 == size
+//@   loop 1 invariant l < size
+//@   modifies MS.mapLstringJstruct__
+
+//@ func (*Msg).Truncate [C09]
+//@   opt no-safety
+//@   requires dns != nil
+//@   ensures tcmono: old(dns.Truncated) ==> dns.Truncated
+//@   ensures prefixA: ref(dns.Answer) == old(ref(dns.Answer)) && sliceoff(dns.Answer) == old(sliceoff(dns.Answer)) && len(dns.Answer) <= old(len(dns.Answer))
+//@   ensures prefixN: ref(dns.Ns) == old(ref(dns.Ns)) && sliceoff(dns.Ns) == old(sliceoff(dns.Ns)) && len(dns.Ns) <= old(len(dns.Ns))
+//@   ensures countE: len(dns.Extra) <= old(len(dns.Extra))
+//@   ensures droptc: len(dns.Answer) < old(len(dns.Answer)) || len(dns.Ns) < old(len(dns.Ns)) || len(dns.Extra) < old(len(dns.Extra)) ==> dns.Truncated
+//@   ensures keep:   !dns.Truncated ==> len(dns.Answer) == old(len(dns.Answer)) && len(dns.Ns) == old(len(dns.Ns)) && len(dns.Extra) == old(len(dns.Extra))
+//@   exit tc:    dns.Truncated == (old(dns.Truncated) || old(len(dns.Answer)) > numAnswer || old(len(dns.Ns)) > numNS || len(dns.Extra) < old(len(dns.Extra)))
+//@   exit order: (numAnswer < old(len(dns.Answer)) ==> numNS == 0 && numExtra == 0) && (numNS < old(len(dns.Ns)) ==> numExtra == 0)
+//@   exit opt:   edns0 != nil ==> len(dns.Extra) > 0 && asptr(dns.Extra[len(dns.Extra)-1], OPT) == edns0
+//@   exit bound: callres("IsTsig") == nil && !dns.Compress ==> det("msgLenWithCompressionMap", dns, nil) <= max(old(size), 512)
